@@ -45,6 +45,10 @@ class VGen:
         n_types = r.randint(0, 4) if n_types is None else n_types
         for _ in range(n_types):
             k = self.pick(["enum", "enum", "subrange", "struct", "array", "string", "alias"])
+            if not enums and self.chance(0.5):
+                k = "enum"
+            elif enums and not structs and self.chance(0.35):
+                k = "struct"
             if k == "enum":
                 name = self.fresh("Enum")
                 vals = [self.fresh("ev") for _ in range(r.randint(2, 4))]
@@ -63,7 +67,7 @@ class VGen:
             elif k == "struct":
                 elems = []
                 for _ in range(r.randint(1, 4)):
-                    tk = self.pick(["elem", "elem", "enum", "struct"])
+                    tk = self.pick(["elem", "elem", "enum", "struct"] if not enums else ["elem", "enum", "enum", "struct"])
                     if tk == "enum" and enums:
                         e_ = self.pick(enums)
                         if self.chance(0.5):
@@ -135,7 +139,12 @@ class VGen:
             progs = []
             for _ in range(r.randint(1, 2)):
                 t = self.pick(tasks)[0] if tasks and self.chance(0.7) else None
-                progs.append([self.fresh("inst"), t, self.pick(programs)["name"]])
+                prog = self.pick(programs)
+                conn = None
+                p_in = [x for x in prog["vars"] if x["class"] == "VAR_INPUT" and x["kind"] == "elem"]
+                if p_in and self.feature("progconf-connections", 0.15):
+                    conn = "%s := 1" % p_in[0]["name"]
+                progs.append([self.fresh("inst"), t, prog["name"]] + ([conn] if conn else []))
             # qualifier is per block: split constant and plain globals into blocks when rendering
             decls.append({"k": "config", "name": self.fresh("Config"), "resource": self.fresh("res"),
                           "globals": globals_, "tasks": tasks, "programs": progs})
@@ -158,8 +167,14 @@ class VGen:
                 elif self.chance(0.2):
                     qual = self.pick(["RETAIN", "NON_RETAIN"])
                 t = self.pick(INTS + ["BOOL"])
+                init = self.pick([None, None, "1"])
+                if cls == "VAR" and self.chance(0.25):
+                    t, init = self.pick([("TIME", "T#1s"), ("TIME", "TIME#250ms"), ("DATE", "D#2020-02-29"),
+                                         ("TOD", "TOD#12:30:15"), ("DT", "DT#2021-01-01-00:00:00"), ("REAL", "1.5"),
+                                         ("LREAL", "-2.5E3"), ("BOOL", "TRUE"), ("WORD", "16#FF"), ("BYTE", "BYTE#7"),
+                                         ("INT", "INT#-5"), ("DINT", "2#1010")])
                 v = {"name": self.fresh("v"), "class": cls, "qual": qual, "type": t,
-                     "init": self.pick([None, None, "1"]), "kind": "elem"}
+                     "init": init, "kind": "elem"}
                 vars_.append(v)
                 scalars.append(v["name"])
         if self.chance(0.4):
@@ -183,8 +198,16 @@ class VGen:
                 enum_vars.append(v)
         for s in types["structs"]:
             if self.chance(0.4):
-                vars_.append({"name": self.fresh("s"), "class": "VAR", "qual": "", "type": s["name"], "init": None,
+                init = None
+                simple = [e for e in s["elems"] if e[1] in INTS]
+                if simple and self.chance(0.4):
+                    init = "(%s)" % ", ".join("%s := %d" % (e[0], r.randint(0, 9)) for e in simple[:2])
+                vars_.append({"name": self.fresh("s"), "class": "VAR", "qual": "", "type": s["name"], "init": init,
                               "kind": "struct", "elems": s["elems"]})
+        if self.chance(0.2):
+            vals = [self.fresh("iv") for _ in range(r.randint(2, 3))]
+            vars_.append({"name": self.fresh("ie"), "class": "VAR", "qual": "", "type": "(%s)" % ", ".join(vals),
+                          "init": self.pick([None, vals[-1]]), "kind": "inline-enum"})
         # a variable of a declared subrange type is answered with P9999 by the analyzer (unsupported): left out
         for a in types["arrays"]:
             if self.chance(0.4):
@@ -197,7 +220,8 @@ class VGen:
         if self.chance(0.3):
             lo = r.randint(0, 2)
             vars_.append({"name": self.fresh("la"), "class": "VAR", "qual": "",
-                          "type": "ARRAY[%d..%d] OF INT" % (lo, lo + r.randint(1, 5)), "init": None, "kind": "array",
+                          "type": "ARRAY[%d..%d] OF INT" % (lo, lo + r.randint(1, 5)),
+                          "init": self.pick([None, None, "[1, 2]", "[2(7)]"]), "kind": "array",
                           "lo": lo, "hi": lo + 1})
         if self.chance(0.3):
             vars_.append({"name": self.fresh("ls"), "class": "VAR", "qual": "", "type": "STRING[%d]" % r.randint(1, 40),
@@ -205,7 +229,11 @@ class VGen:
         insts = []
         for fb in fbs:
             if self.chance(0.6):
-                v = {"name": self.fresh("inst"), "class": "VAR", "qual": "", "type": fb["name"], "init": None,
+                init = None
+                fb_ins = [x for x in fb["vars"] if x["class"] == "VAR_INPUT" and x["kind"] == "elem"]
+                if fb_ins and self.feature("fb-instance-init", 0.15):
+                    init = "(%s := 1)" % fb_ins[0]["name"]
+                v = {"name": self.fresh("inst"), "class": "VAR", "qual": "", "type": fb["name"], "init": init,
                      "kind": "fb", "fb": fb["name"]}
                 vars_.append(v)
                 insts.append((v["name"], fb))
@@ -233,10 +261,22 @@ class VGen:
         readable = scalars + scalars_ro
         structs = [v for v in vars_ if v["kind"] == "struct"]
         arrays = [v for v in vars_ if v["kind"] == "array"]
-        self.ctx = {"enum_vars": enum_vars, "structs": structs, "arrays": arrays, "functions": functions}
+        self.ctx = {"enum_vars": enum_vars, "structs": structs, "arrays": arrays, "functions": functions,
+                    "direct": kind == "program"}
         d["body"] = self.body(scalars, readable, insts, r.randint(1, 3))
         if not d["body"]:
             d["body"] = [["assign", scalars[0], "1"]]
+        if kind == "fb" and self.chance(0.12):
+            # a sequential function chart instead of a statement list
+            steps = [self.fresh("step") for _ in range(r.randint(2, 3))]
+            act = self.fresh("act")
+            lines = ["INITIAL_STEP %s:" % steps[0], "END_STEP"]
+            for st in steps[1:]:
+                lines += ["STEP %s:" % st, "  %s(%s);" % (act, self.pick(["N", "S", "R", "P"])), "END_STEP"]
+            for a_, b_ in zip(steps, steps[1:] + steps[:1]):
+                lines += ["TRANSITION FROM %s TO %s" % (a_, b_), "  := %s;" % self.expr(readable, None, 1), "END_TRANSITION"]
+            lines += ["ACTION %s:" % act] + render_stmts(self.body(scalars, readable, [], 1)) + ["END_ACTION"]
+            d["body"] = [["raw", "\n".join(lines)]]
         return d
 
     # ------------------------------------------------------------ statements and expressions
@@ -256,8 +296,13 @@ class VGen:
             return "%s[%d]" % (a["name"], a["lo"])
         if k == 8 and ctx.get("functions") and depth > 0:
             f = self.pick(ctx["functions"])
-            args = ", ".join(self.expr(readable, readable, 0) for _ in f["inputs"])
+            if self.chance(0.4):
+                args = ", ".join("%s := %s" % (i_[0], self.expr(readable, readable, 0)) for i_ in f["inputs"])
+            else:
+                args = ", ".join(self.expr(readable, readable, 0) for _ in f["inputs"])
             return "%s(%s)" % (f["name"], args)
+        if k == 9 and ctx.get("direct"):
+            return self.pick(["%IW3", "%IX1.2", "%MD10", "%QB7"])
         if k == 9:
             return self.pick(["TRUE", "FALSE", "16#1F", "2#101"])
         return self.pick(readable) if readable else "1"
@@ -465,7 +510,8 @@ def render_decl(d):
             lines.append("    TASK %s(%sPRIORITY := %d);" % (t[0], iv, t[1]))
         for p in d["programs"]:
             w = " WITH %s" % p[1] if p[1] else ""
-            lines.append("    PROGRAM %s%s : %s;" % (p[0], w, p[2]))
+            conn = " (%s)" % p[3] if len(p) > 3 else ""
+            lines.append("    PROGRAM %s%s : %s%s;" % (p[0], w, p[2], conn))
         lines.append("  END_RESOURCE")
         lines.append("END_CONFIGURATION")
         return "\n".join(lines)
